@@ -6,12 +6,16 @@ Regenerated on every run (DESIGN 5.1):
       abstract scalar type `T` (operations passed as type-class instances / parameters);
   * genlm/grammar/parse/earley.py, earley_rescaled.py  ->  lean/GenlmModel/Generated/Earley.lean
       the expression assigned to `ORDER_MAX` and the agenda priority expression.
-The law proofs (Proofs/Semiring.lean, Proofs/Prio.lean) are about these generated definitions, so they
-are re-checked against what the source says now.  Anything outside the supported subset raises
+  * the BUILDER functions of fst.py, cfg.py, cfglm.py, wfsa/base.py (table `BUILDERS`)  ->  Generated/Builders.lean
+      one Lean definition per function in the vocabulary of the hand models; Proofs/GenLink/*.lean prove
+      `gen_<f>_eq_model`: the regenerated definition IS the hand-written model.
+The law proofs (Proofs/Semiring.lean, Proofs/Prio.lean, Proofs/GenLink/) are about these generated definitions, so
+they are re-checked against what the source says now.  Anything outside the supported subset raises
 `Untranslatable`, which the checks treat like a broken proof (never silently skipped).
 """
 import ast
 import os
+import re
 
 from harness import common
 
@@ -351,14 +355,638 @@ def translate_earley(src, ns):
             f"def prio (K I OM ord : Int) : Int := {pr_l}\nend {ns}\n")
 
 
+# ----------------------------------------------------------------------------- builder functions
+# A STRICT translator for code that constructs a machine / grammar by a fixed pattern of `add_I` / `add_F` / `add_arc` /
+# `add` calls: straight-line code, `for` loops over a parameter (an alphabet, the arcs / initial / final weights / states of
+# an operand, `range(len(xs))`, `enumerate(..)`), `if`/`elif` on equalities.  Output: Generated/Builders.lean, one
+# definition per function, in the vocabulary of the hand models (`FST`/`WFSA` with `start`, `stop`, `arcs`; `CFG`).
+# The three lists are filled in program order: a call contributes a singleton, a loop a `flatMap`, a branch an `if`.
+#
+# Interpretation of the primitives (fixed here, NOT read off the source — the conventions of Model/Wfsa*.lean):
+#   M.I / M.F / M.arcs()      the lists M.start / M.stop / M.arcs (the model keeps zero entries and repeated keys)
+#   M.arcs(i)                 M.arcs.filter (src = i);   M.states  FST.states M / WFSA.states M
+#   EPSILON, ε                `none`;  ε_1, ε_2  `some ESym.e1/e2` (the result is then over `ESym σ`, other labels `ESym.lift`ed)
+#   R.one / R.zero            1 / 0;   a / b  `a * inv b`;  Z[x]  `Z x`;  Z.product(b)  `lprod (b.map Z)`
+#   self, other = self.rename_apart(other)      WFSA.mapStates Sum.inl / Sum.inr
+#   X.spawn(keep_..=..)       the body of `WFSA.spawn` INLINED with the constant flags; cfg.spawn(S=..) same V, no rules
+#   _gen_nt(..)               a fresh symbol: an explicit argument;  self.agenda(..)  a chart: an explicit argument `Z`
+#   set.add(x)                `x :: set`;  CFG.add keeps zero-weight rules (their skipping is `dropZero`, Model/Norm.lean)
+#   xs[:k], xs[k]             `xs.take k`, `xs[k]?` (as a label)
+# Everything else raises Untranslatable; the function's definition is then omitted, so its theorem no longer builds.
+
+class Val:
+    """typed Lean term: k = kind, tm = term (a 2-tuple of label terms for k='lpair'), ty = state type / (class, state type)"""
+    def __init__(self, k, tm=None, ty=None):
+        self.k, self.tm, self.ty = k, tm, ty
+
+
+P_TY = {"label": "Option σ", "weight": "K", "oweight": "Option K", "str": "List σ", "nat": "Nat", "syms": "List σ",
+        "labels": "List (Option σ)", "pairs": "List (List σ × List σ)", "cfg": "CFG σ K", "sym": "σ"}
+# module constants the interpretation above relies on: (file, name) -> source text of the assigned value
+CONSTS = {("wfsa/base.py", "EPSILON"): "''", ("fst.py", "ε"): "EPSILON", ("fst.py", "ε_1"): "f'{EPSILON}₁'",
+          ("fst.py", "ε_2"): "f'{EPSILON}₂'", ("cfglm.py", "EOS"): "'▪'"}
+M = lambda c, st: ("mach", (c, st))  # noqa: E731
+# (file, python name, props whose models it ties, parameter kinds, result (class, state type))
+BUILDERS = [
+    ("wfsa/base.py", "WFSA.lift", ["C12"], {"cls": "skip", "x": "label", "w": "weight", "R": "skip"}, ("WFSA", "Nat")),
+    ("wfsa/base.py", "WFSA.from_string", ["C12", "C10"], {"cls": "skip", "xs": "str", "R": "skip", "w": "oweight"}, ("WFSA", "List σ")),
+    ("wfsa/base.py", "WFSA.zero", ["C12"], {"self": M("WFSA", "ι")}, ("WFSA", "ι")),
+    ("wfsa/base.py", "WFSA.one", ["C12"], {"self": M("WFSA", "ι")}, ("WFSA", "Nat")),
+    ("wfsa/base.py", "WFSA.reverse", ["C12"], {"self": M("WFSA", "ι")}, ("WFSA", "ι")),
+    ("wfsa/base.py", "WFSA.__add__", ["C12"], {"self": M("WFSA", "ι"), "other": M("WFSA", "κ")}, ("WFSA", "ι ⊕ κ")),
+    ("wfsa/base.py", "WFSA.__mul__", ["C12"], {"self": M("WFSA", "ι"), "other": M("WFSA", "κ")}, ("WFSA", "ι ⊕ κ")),
+    ("wfsa/base.py", "WFSA.kleene_plus", ["C12"], {"self": M("WFSA", "ι")}, ("WFSA", "ι")),
+    ("fst.py", "FST.diag", ["C10"], {"cls": "skip", "fsa": M("WFSA", "ι")}, ("FST", "ι")),
+    ("fst.py", "FST.from_string", ["C10"], {"cls": "skip", "xs": "str", "R": "skip", "w": "oweight"}, ("FST", "List σ")),
+    ("fst.py", "FST.T", ["C10"], {"self": M("FST", "ι")}, ("FST", "ι")),
+    ("fst.py", "FST.project", ["C10"], {"self": M("FST", "ι"), "axis": "nat"}, ("WFSA", "ι")),
+    ("fst.py", "FST._augment_epsilon_transitions", ["C10"], {"self": M("FST", "ι"), "idx": "nat"}, ("FST", "ι")),
+    ("fst.py", "epsilon_filter_fst", ["C10"], {"R": "skip", "Sigma": "labels"}, ("FST", "Nat")),
+    ("fst.py", "FST.from_pairs", ["C10"], {"pairs": "pairs", "R": "skip"}, ("FST", "PairState")),
+    ("cfg.py", "prefix_transducer", ["C03"], {"R": "skip", "V": "syms"}, ("FST", "Nat")),
+    ("cfglm.py", "add_EOS", ["C20"], {"cfg": "cfg", "eos": "sym"}, ("CFG", None)),
+    ("cfglm.py", "locally_normalize", ["C20"], {"self": "cfg", "kwargs": "skip"}, ("CFG", None)),
+]
+LEAN_KW = {"at", "do", "fun", "in", "from", "show", "then", "end", "have", "let", "if", "else", "match", "with", "e", "inv", "K"}
+
+
+def lean_name(py):
+    """`FST._augment_epsilon_transitions` -> `FST_augment_epsilon_transitions`, `WFSA.__add__` -> `WFSA_add`"""
+    return "_".join(part.strip("_") for part in py.split("."))
+
+
+def _ident(n):
+    if not isinstance(n, ast.Name) or not n.id.isascii() or not n.id.isidentifier():
+        raise Untranslatable("binder " + ast.unparse(n))
+    return n.id + "_" if (n.id in LEAN_KW or re.fullmatch(r"e\d*", n.id)) else n.id
+
+
+def _cat(a, b):
+    """concatenation of two piece lists (adjacent literals are merged)"""
+    if a and b and a[-1][0] == "lit" and b[0][0] == "lit":
+        return a[:-1] + [("lit", a[-1][1] + b[0][1])] + b[1:]
+    return a + b
+
+
+def _render(ps):
+    out = []
+    for p in ps:
+        if p[0] == "lit":
+            out.append("[" + ", ".join(p[1]) + "]")
+        elif p[0] == "raw":
+            out.append(p[1])
+        elif p[0] == "for":
+            out.append(f"({p[1]}.flatMap fun {p[2]} => {_render(p[3])})")
+        else:
+            out.append(f"(if {p[1]} then {_render(p[2])} else {_render(p[3])})")
+    return " ++ ".join(out) if out else "[]"
+
+
+class Builder:
+    """translation of one builder function (`done`: python name -> (FunctionDef params, spec) of those already emitted)"""
+
+    def __init__(self, spec, trees, done):
+        self.file, self.py, self.props, self.kinds, self.ret = spec
+        self.trees, self.done = trees, done
+        self.cls = self.py.split(".")[0] if "." in self.py else None
+        self.fn = self.find(self.file, self.py)
+        self.esym = any(isinstance(n, ast.Name) and n.id in ("ε_1", "ε_2") for n in ast.walk(self.fn))
+        self.extra, self.pre, self.inst = [], [], []
+        self.obj = self.kind_of_obj = None   # name / class of the object under construction
+        self.nest = 0            # > 0 inside a loop or a (non-constant) branch
+        self.S = self.V = None   # CFG results: start symbol, vocabulary
+
+    def find(self, file, py):
+        body = self.trees[file].body
+        for part in py.split("."):
+            hit = [n for n in body if isinstance(n, (ast.ClassDef, ast.FunctionDef)) and n.name == part]
+            if len(hit) != 1:
+                raise Untranslatable(f"{py}: not found (or defined twice)")
+            body = hit[0].body
+        if not isinstance(hit[0], ast.FunctionDef):
+            raise Untranslatable(f"{py}: not a function")
+        for dec in hit[0].decorator_list:
+            if ast.unparse(dec) not in ("classmethod", "staticmethod", "property", "cached_property"):
+                raise Untranslatable(f"{py}: decorator {ast.unparse(dec)}")
+        return hit[0]
+
+    def const(self, name):
+        """a module-level constant, checked against the value the interpretation assumes"""
+        for (f, nm), want in CONSTS.items():
+            if nm == name:
+                got = [ast.unparse(s.value) for s in self.trees[f].body if isinstance(s, ast.Assign) and len(s.targets) == 1
+                       and isinstance(s.targets[0], ast.Name) and s.targets[0].id == name]
+                if got != [want]:
+                    raise Untranslatable(f"constant {name} = {got} (expected {want})")
+                return True
+        return False
+
+    def lift(self, t):
+        return f"(ESym.lift {t})" if self.esym else t
+
+    # ------------------------------------------------------------------ expressions
+    def label(self, n, env):
+        if isinstance(n, ast.Name) and n.id in env:
+            v = env[n.id]
+            if v.k == "label":
+                return v.tm
+            if v.k == "sym":
+                return f"(some (ESym.sym {v.tm}))" if self.esym else f"(some {v.tm})"
+        elif isinstance(n, ast.Name) and n.id in ("EPSILON", "ε") and self.const("EPSILON") and self.const(n.id):
+            return "none"
+        elif isinstance(n, ast.Name) and n.id in ("ε_1", "ε_2") and self.const(n.id):
+            return "(some ESym.e1)" if n.id == "ε_1" else "(some ESym.e2)"
+        elif isinstance(n, ast.Subscript) and isinstance(n.value, ast.Name) and n.value.id in env:
+            v = env[n.value.id]
+            if v.k == "lpair" and isinstance(n.slice, ast.Constant) and n.slice.value in (0, 1):
+                return v.tm[n.slice.value]
+            if v.k == "str" and not self.esym:
+                return f"{v.tm}[{self.nat(n.slice, env)}]?"
+        raise Untranslatable("label " + ast.unparse(n))
+
+    def lpair(self, n, env):
+        if isinstance(n, ast.Tuple) and len(n.elts) == 2:
+            return (self.label(n.elts[0], env), self.label(n.elts[1], env))
+        if isinstance(n, ast.Name) and n.id in env and env[n.id].k == "lpair":
+            return env[n.id].tm
+        raise Untranslatable("transducer label (a pair is required) " + ast.unparse(n))
+
+    def nat(self, n, env):
+        if isinstance(n, ast.Constant) and isinstance(n.value, int) and not isinstance(n.value, bool) and n.value >= 0:
+            return str(n.value)
+        if isinstance(n, ast.Name) and n.id in env and env[n.id].k == "nat":
+            return env[n.id].tm
+        if isinstance(n, ast.BinOp) and isinstance(n.op, ast.Add):
+            return f"({self.nat(n.left, env)} + {self.nat(n.right, env)})"
+        if isinstance(n, ast.Call) and isinstance(n.func, ast.Name) and not n.keywords:
+            if n.func.id == "len" and len(n.args) == 1 and isinstance(n.args[0], ast.Name) and env.get(n.args[0].id, Val("")).k == "str":
+                return f"{env[n.args[0].id].tm}.length"
+            if n.func.id == "max" and len(n.args) == 2:
+                return f"(max {self.nat(n.args[0], env)} {self.nat(n.args[1], env)})"
+        raise Untranslatable("number " + ast.unparse(n))
+
+    def state(self, n, env):
+        want = self.ret[1]
+        if isinstance(n, ast.Constant) and isinstance(n.value, int) and not isinstance(n.value, bool) and n.value >= 0:
+            if want == "Nat":
+                return str(n.value)
+            if want == "PairState":
+                return f"(.inl {n.value})"
+        elif isinstance(n, ast.Name) and n.id in env:
+            v = env[n.id]
+            if (v.k == "state" and v.ty == want) or (v.k == "str" and want == "List σ"):
+                return v.tm
+        elif isinstance(n, ast.Subscript) and isinstance(n.value, ast.Name) and env.get(n.value.id, Val("")).k == "str" and want == "List σ":
+            sl = n.slice
+            if isinstance(sl, ast.Slice) and sl.lower is None and sl.step is None and sl.upper is not None:
+                return f"({env[n.value.id].tm}.take {self.nat(sl.upper, env)})"
+        elif isinstance(n, ast.Tuple) and len(n.elts) == 2 and want == "PairState":
+            return f"(.inr ({self.nat(n.elts[0], env)}, {self.nat(n.elts[1], env)}))"
+        raise Untranslatable(f"state {ast.unparse(n)} (result states: {want})")
+
+    def sym(self, n, env):
+        ch = _attr_chain(n)
+        if ch and ch[0] in env:
+            v = env[ch[0]]
+            if len(ch) == 1 and v.k == "sym":
+                return v.tm
+            if len(ch) == 2 and ((v.k == "cfg" and ch[1] == "S") or (v.k == "rule" and ch[1] == "head")):
+                return f"{v.tm}.{ch[1]}"
+        raise Untranslatable("symbol " + ast.unparse(n))
+
+    def weight(self, n, env):
+        ch = _attr_chain(n)
+        if ch and ch[-1] in ("one", "zero") and len(ch) >= 2 and ch[-2] == "R" and \
+                (len(ch) == 2 and env.get("R", Val("")).k == "skip" or len(ch) == 3 and env.get(ch[0], Val("")).k in ("mach", "cfg")):
+            return "1" if ch[-1] == "one" else "0"
+        if ch and len(ch) == 1 and ch[0] in env and env[ch[0]].k == "weight":
+            return env[ch[0]].tm
+        if ch and len(ch) == 2 and ch[0] in env and env[ch[0]].k == "rule" and ch[1] == "w":
+            return f"{env[ch[0]].tm}.w"
+        if isinstance(n, ast.BinOp) and isinstance(n.op, (ast.Mult, ast.Add)):
+            return f"({self.weight(n.left, env)} {'*' if isinstance(n.op, ast.Mult) else '+'} {self.weight(n.right, env)})"
+        if isinstance(n, ast.BinOp) and isinstance(n.op, ast.Div):
+            if "(inv : K → K)" not in self.inst:
+                self.inst.append("(inv : K → K)")
+            return f"({self.weight(n.left, env)} * inv {self.weight(n.right, env)})"
+        if isinstance(n, ast.Subscript) and isinstance(n.value, ast.Name) and env.get(n.value.id, Val("")).k == "chart":
+            return f"({n.value.id} {self.sym(n.slice, env)})"
+        ch = _attr_chain(n.func) if isinstance(n, ast.Call) else None
+        if ch and len(ch) == 2 and env.get(ch[0], Val("")).k == "chart" and ch[1] == "product" and len(n.args) == 1 and not n.keywords:
+            b = _attr_chain(n.args[0])
+            if b and len(b) == 2 and env.get(b[0], Val("")).k == "rule" and b[1] == "body":
+                return f"lprod ({env[b[0]].tm}.body.map {ch[0]})"
+        if isinstance(n, ast.IfExp) and isinstance(n.orelse, ast.Name) and env.get(n.orelse.id, Val("")).k == "oweight" \
+                and ast.unparse(n.test) == f"{n.orelse.id} is None":
+            return f"({env[n.orelse.id].tm}.getD {self.weight(n.body, env)})"
+        raise Untranslatable("weight " + ast.unparse(n))
+
+    def test(self, n, env):
+        """condition -> Lean Prop (decidable), or a Python bool when it is decided by a constant flag"""
+        if isinstance(n, ast.Name) and n.id in env and env[n.id].k == "flag":
+            return env[n.id].tm
+        if isinstance(n, ast.BoolOp) and isinstance(n.op, ast.And):
+            cs = [self.test(v, env) for v in n.values]
+            if all(isinstance(c, str) for c in cs):
+                return "(" + " ∧ ".join(cs) + ")"
+        if isinstance(n, ast.Compare) and len(n.ops) == 1 and isinstance(n.ops[0], ast.Eq):
+            l, r = n.left, n.comparators[0]
+            for f in (self.nat, self.label):
+                try:
+                    return f"({f(l, env)} = {f(r, env)})"
+                except Untranslatable:
+                    pass
+            if isinstance(r, ast.Constant) and r.value == 0 and type(r.value) is int:
+                if "[DecidableEq K]" not in self.inst:
+                    self.inst.append("[DecidableEq K]")
+                return f"({self.weight(l, env)} = 0)"
+        raise Untranslatable("test " + ast.unparse(n))
+
+    def mach(self, n, env):
+        if isinstance(n, ast.Name) and n.id in env and env[n.id].k == "mach":
+            return env[n.id]
+        raise Untranslatable("machine " + ast.unparse(n))
+
+    def call(self, n, env):
+        """call of an already translated builder -> Val('mach')"""
+        ch = _attr_chain(n.func)
+        if ch and len(ch) >= 2:
+            owner = ch[:-1]
+            c = self.cls if owner == ["cls"] else owner[0] if len(owner) == 1 and owner[0] in ("WFSA", "FST") else \
+                env[owner[0]].ty[0] if len(owner) == 2 and owner[1] == "__class__" and env.get(owner[0], Val("")).k == "mach" else None
+            cand = [c] + (["WFSA"] if c == "FST" else [])          # FST inherits from WFSA
+            for cc in cand:
+                if f"{cc}.{ch[-1]}" in self.done:
+                    params, spec = self.done[f"{cc}.{ch[-1]}"]
+                    names = [p for p in params if p not in ("cls", "self")]
+                    given = dict(zip(names, n.args))
+                    for kw in n.keywords:
+                        if kw.arg is None or kw.arg in given or kw.arg not in names:
+                            raise Untranslatable("arguments of " + ast.unparse(n))
+                        given[kw.arg] = kw.value
+                    if len(n.args) > len(names):
+                        raise Untranslatable("arguments of " + ast.unparse(n))
+                    args = []
+                    for p in names:
+                        k = spec[3][p]
+                        if k == "skip":
+                            continue
+                        if p not in given:
+                            if k == "oweight":
+                                args.append("none")
+                                continue
+                            raise Untranslatable(f"argument {p} of {ast.unparse(n)}")
+                        a = given[p]
+                        if k == "label":
+                            args.append(self.label(a, env))
+                        elif k == "weight":
+                            args.append(self.weight(a, env))
+                        elif isinstance(k, tuple):
+                            v = self.call(a, env) if isinstance(a, ast.Call) else self.mach(a, env)
+                            if v.ty[0] != k[1][0]:
+                                raise Untranslatable(f"argument {p} of {ast.unparse(n)}: {v.ty[0]}")
+                            args.append(v.tm)
+                        elif isinstance(a, ast.Name) and a.id in env and env[a.id].k == k:
+                            args.append(env[a.id].tm)
+                        else:
+                            raise Untranslatable(f"argument {p} of {ast.unparse(n)}")
+                    st = spec[4][1]
+                    for p, k in spec[3].items():      # the callee's state type follows its machine argument
+                        if isinstance(k, tuple) and k[1][1] == st:
+                            st = self.call(given[p], env).ty[1] if isinstance(given[p], ast.Call) else self.mach(given[p], env).ty[1]
+                    return Val("mach", "(" + " ".join([lean_name(spec[1])] + args) + ")", (spec[4][0], st))
+        raise Untranslatable("call " + ast.unparse(n))
+
+    # ------------------------------------------------------------------ statements
+    def new_machine(self, n, env):
+        """`FST(R)`, `WFSA(R=self.R)`, `cls(R)`, `self.__class__(self.R)` -> class name of the fresh empty machine"""
+        f = ast.unparse(n.func)
+        arg = [ast.unparse(a) for a in n.args] + [ast.unparse(k.value) for k in n.keywords if k.arg == "R"]
+        if len(arg) != 1 or len(n.args) + len(n.keywords) != 1:
+            return None
+        ch = arg[0].split(".")
+        if not (ch == ["R"] and env.get("R", Val("")).k == "skip" or len(ch) == 2 and ch[1] == "R" and env.get(ch[0], Val("")).k == "mach"):
+            return None
+        if f in ("FST", "WFSA"):
+            return f
+        if f == "cls" and env.get("cls", Val("")).k == "skip":
+            return self.cls
+        if f.endswith(".__class__") and env.get(f[:-10], Val("")).k == "mach":
+            return env[f[:-10]].ty[0]
+        return None
+
+    def inline_spawn(self, recv, call, d):
+        """`recv.spawn(keep_init=.., keep_arcs=.., keep_stop=..)`: the body of WFSA.spawn with the constant flags"""
+        fn = self.find("wfsa/base.py", "WFSA.spawn")
+        a = fn.args
+        if a.posonlyargs or a.vararg or a.kwarg or [x.arg for x in a.args] != ["self"] or call.args:
+            raise Untranslatable("signature / call of spawn")
+        env = {"self": recv}
+        for p, dflt in zip(a.kwonlyargs, a.kw_defaults):
+            if not (isinstance(dflt, ast.Constant) and isinstance(dflt.value, bool)):
+                raise Untranslatable("spawn default")
+            env[p.arg] = Val("flag", dflt.value)
+        for kw in call.keywords:
+            if kw.arg not in env or kw.arg == "self" or not (isinstance(kw.value, ast.Constant) and isinstance(kw.value.value, bool)):
+                raise Untranslatable("spawn argument " + ast.unparse(kw))
+            env[kw.arg] = Val("flag", kw.value.value)
+        saved, self.obj = self.obj, None
+        ch = self.body(fn.body, env, d)
+        if self.kind_of_obj != recv.ty[0]:
+            raise Untranslatable("spawn: class of the result")
+        self.obj = saved
+        return ch
+
+    def body(self, stmts, env, d):
+        """function body `…; return <object>` -> channels"""
+        if not stmts or not isinstance(stmts[-1], ast.Return):
+            raise Untranslatable("no final return")
+        ch = self.block(stmts[:-1], env, d)
+        r = stmts[-1].value
+        if not (isinstance(r, ast.Name) and r.id == self.obj):
+            raise Untranslatable("return " + ast.unparse(stmts[-1]))
+        return ch
+
+    def block(self, stmts, env, d):
+        ch = {}
+        for k, s in enumerate(stmts):
+            if isinstance(s, ast.If) and len(s.body) == 1 and isinstance(s.body[0], ast.Continue) and not s.orelse:
+                c, rest = self.test(s.test, env), self.block(stmts[k + 1:], env, d)
+                for nm, ps in rest.items():
+                    ch[nm] = _cat(ch.get(nm, []), [("if", c, [], ps)])
+                return ch
+            for nm, ps in self.stmt(s, env, d).items():
+                ch[nm] = _cat(ch.get(nm, []), ps)
+        return ch
+
+    def stmt(self, s, env, d):
+        if isinstance(s, ast.Expr) and isinstance(s.value, ast.Constant) and isinstance(s.value.value, str):
+            return {}
+        if isinstance(s, ast.Assert) and s.msg is None:
+            self.pre.append(ast.unparse(s.test))
+            return {}
+        if ast.unparse(s) == "if R is None:\n    R = w.__class__" and env.get("R", Val("")).k == "skip":
+            return {}
+        if isinstance(s, ast.Assign) and len(s.targets) == 1:
+            return self.assign(s.targets[0], s.value, env, d)
+        if isinstance(s, ast.Expr) and isinstance(s.value, ast.Call):
+            return self.emit(s.value, env)
+        if isinstance(s, ast.For) and not s.orelse:
+            return self.loop(s, env, d)
+        if isinstance(s, ast.If):
+            return self.branch(s, env, d)
+        raise Untranslatable("statement " + ast.unparse(s)[:80])
+
+    def assign(self, tg, v, env, d):
+        src = ast.unparse(v)
+        if self.nest:
+            raise Untranslatable("assignment inside a loop / branch: " + ast.unparse(tg) + " = " + src[:60])
+        if isinstance(tg, ast.Name) and isinstance(v, ast.Call):
+            ch = _attr_chain(v.func)
+            c = self.new_machine(v, env)
+            if c is not None and self.obj is None:
+                self.obj, self.kind_of_obj = tg.id, c
+                return {}
+            if ch and len(ch) == 2 and ch[1] == "spawn" and ch[0] in env and self.obj is None:
+                recv = env[ch[0]]
+                if recv.k == "mach":
+                    out = self.inline_spawn(recv, v, d)
+                    self.obj = tg.id
+                    return out
+                if recv.k == "cfg" and not v.args and all(k.arg == "S" for k in v.keywords) and len(v.keywords) <= 1:
+                    self.obj, self.kind_of_obj = tg.id, "CFG"
+                    self.S = self.sym(v.keywords[0].value, env) if v.keywords else f"{recv.tm}.S"
+                    self.V = f"{recv.tm}.V"
+                    return {}
+            if src == "_gen_nt('<START>')" and tg.id not in env:
+                env[tg.id] = Val("sym", _ident(tg))
+                self.extra.append(f"({_ident(tg)} : σ)")
+                return {}
+            if ch and len(ch) == 2 and ch[1] == "agenda" and env.get(ch[0], Val("")).k == "cfg" and src == f"{ch[0]}.agenda(**kwargs)" \
+                    and env.get("kwargs", Val("")).k == "skip" and tg.id not in env:
+                env[tg.id] = Val("chart", _ident(tg))
+                self.extra.append(f"({_ident(tg)} : σ → K)")
+                return {}
+        if isinstance(tg, ast.Name) and env.get(tg.id, Val("")).k == "sym" and src == f"{tg.id} or EOS" and self.const("EOS"):
+            return {}   # default value of an optional argument
+        if ast.unparse(tg) == "(self, other)" and src == "self.rename_apart(other)" and self.obj is None:
+            a, b = self.mach(ast.Name("self"), env), self.mach(ast.Name("other"), env)
+            st = f"{a.ty[1]} ⊕ {b.ty[1]}"
+            env["self"] = Val("mach", f"(WFSA.mapStates Sum.inl {a.tm})", (a.ty[0], st))
+            env["other"] = Val("mach", f"(WFSA.mapStates Sum.inr {b.tm})", (b.ty[0], st))
+            return {}
+        raise Untranslatable("assignment " + ast.unparse(tg) + " = " + src[:60])
+
+    def emit(self, c, env):
+        ch = _attr_chain(c.func)
+        if not ch or ch[0] != self.obj or c.keywords:
+            raise Untranslatable("call " + ast.unparse(c)[:80])
+        op, a = ch[1:], c.args
+        if self.kind_of_obj in ("WFSA", "FST"):
+            if op in (["add_I"], ["add_F"]) and len(a) == 2:
+                return {"start" if op == ["add_I"] else "stop": [("lit", [f"({self.state(a[0], env)}, {self.weight(a[1], env)})"])]}
+            if op == ["add_arc"] and len(a) == 4:
+                lab = list(self.lpair(a[1], env)) if self.kind_of_obj == "FST" else [self.label(a[1], env)]
+                return {"arcs": [("lit", ["⟨" + ", ".join([self.state(a[0], env)] + lab + [self.state(a[2], env), self.weight(a[3], env)]) + "⟩"])]}
+        elif op == ["add"] and len(a) >= 2:
+            parts = []
+            for y in a[2:]:
+                if isinstance(y, ast.Starred):
+                    b = _attr_chain(y.value)
+                    if not (b and len(b) == 2 and env.get(b[0], Val("")).k == "rule" and b[1] == "body"):
+                        raise Untranslatable("rule body " + ast.unparse(y))
+                    parts = _cat(parts, [("raw", f"{env[b[0]].tm}.body")])
+                else:
+                    parts = _cat(parts, [("lit", [self.sym(y, env)])])
+            return {"rules": [("lit", [f"⟨{self.weight(a[0], env)}, {self.sym(a[1], env)}, {_render(parts)}⟩"])]}
+        elif op == ["V", "add"] and len(a) == 1 and not self.nest:
+            self.V = f"{self.sym(a[0], env)} :: {self.V}"
+            return {}
+        raise Untranslatable("call " + ast.unparse(c)[:80])
+
+    def loop(self, s, env, d):
+        it, tg, env = s.iter, s.target, dict(env)
+        e = "e" if d == 0 else f"e{d}"
+        names = [x for x in tg.elts] if isinstance(tg, ast.Tuple) else None
+        ch = _attr_chain(it.func if isinstance(it, ast.Call) else it)
+
+        def bind(name, val):
+            if not isinstance(name, ast.Name) or name.id in env:     # no shadowing: Python's loop variables leak
+                raise Untranslatable("loop target " + ast.unparse(tg))
+            env[name.id] = val
+        if isinstance(it, ast.Name) and it.id in env and env[it.id].k in ("syms", "labels", "cfg"):
+            v, b = env[it.id], _ident(tg)
+            src = v.tm + (".rules" if v.k == "cfg" else "")
+            bind(tg, Val("sym", b) if v.k == "syms" else Val("label", self.lift(b)) if v.k == "labels" else Val("rule", b))
+        elif not isinstance(it, ast.Call) and ch and len(ch) == 2 and env.get(ch[0], Val("")).k == "mach" and ch[1] in ("I", "F") \
+                and names and len(names) == 2:
+            m, b = env[ch[0]], e
+            src = f"{m.tm}.{'start' if ch[1] == 'I' else 'stop'}"
+            bind(names[0], Val("state", f"{e}.1", m.ty[1]))
+            bind(names[1], Val("weight", f"{e}.2"))
+        elif not isinstance(it, ast.Call) and ch and len(ch) == 2 and env.get(ch[0], Val("")).k == "mach" and ch[1] == "states":
+            m, b = env[ch[0]], _ident(tg)
+            src = f"({m.ty[0]}.states {m.tm})"
+            bind(tg, Val("state", b, m.ty[1]))
+        elif isinstance(it, ast.Call) and ch and len(ch) == 2 and env.get(ch[0], Val("")).k == "mach" and ch[1] == "arcs" \
+                and not it.keywords and names and len(names) + len(it.args) == 4 and len(it.args) <= 1:
+            m, b = env[ch[0]], e
+            src = f"{m.tm}.arcs"
+            if it.args:
+                i = env.get(it.args[0].id) if isinstance(it.args[0], ast.Name) else None
+                if i is None or i.k != "state" or i.ty != m.ty[1]:
+                    raise Untranslatable("arcs of " + ast.unparse(it))
+                src = f"({src}.filter fun {e} => {e}.src = {i.tm})"
+            else:
+                bind(names[0], Val("state", f"{e}.src", m.ty[1]))
+            lab = names[-3]
+            if m.ty[0] == "FST":
+                two = (self.lift(f"{e}.inp"), self.lift(f"{e}.out"))
+                if isinstance(lab, ast.Tuple) and len(lab.elts) == 2:
+                    bind(lab.elts[0], Val("label", two[0]))
+                    bind(lab.elts[1], Val("label", two[1]))
+                else:
+                    bind(lab, Val("lpair", two))
+            else:
+                bind(lab, Val("label", self.lift(f"{e}.lbl")))
+            bind(names[-2], Val("state", f"{e}.dst", m.ty[1]))
+            bind(names[-1], Val("weight", f"{e}.w"))
+        elif ast.unparse(it).startswith("range(len(") and isinstance(tg, ast.Name):
+            b = _ident(tg)
+            src = f"(List.range {self.nat(it.args[0], env)})" if len(it.args) == 1 and not it.keywords else None
+            bind(tg, Val("nat", b))
+        elif isinstance(it, ast.Call) and ast.unparse(it.func) == "enumerate" and len(it.args) == 1 and not it.keywords \
+                and names and len(names) == 2 and isinstance(names[1], ast.Tuple) and len(names[1].elts) == 2:
+            x, b = it.args[0], e
+            bind(names[0], Val("nat", f"{e}.2"))
+            if isinstance(x, ast.Name) and env.get(x.id, Val("")).k == "pairs":
+                src = f"{env[x.id].tm}.zipIdx"
+                bind(names[1].elts[0], Val("str", f"{e}.1.1"))
+                bind(names[1].elts[1], Val("str", f"{e}.1.2"))
+            elif isinstance(x, ast.Call) and ast.unparse(x.func) == "zip_longest" and len(x.args) == 2 and not self.esym \
+                    and [ast.unparse(k) for k in x.keywords] == ["fillvalue=EPSILON"] and self.const("EPSILON") \
+                    and all(isinstance(y, ast.Name) and env.get(y.id, Val("")).k == "str" for y in x.args):
+                src = f"(zipLongest {env[x.args[0].id].tm} {env[x.args[1].id].tm}).zipIdx"
+                bind(names[1].elts[0], Val("label", f"{e}.1.1"))
+                bind(names[1].elts[1], Val("label", f"{e}.1.2"))
+            else:
+                src = None
+        else:
+            src = None
+        if src is None:
+            raise Untranslatable("loop over " + ast.unparse(it))
+        self.nest += 1
+        body = self.block(s.body, env, d + (1 if b == e else 0))
+        self.nest -= 1
+        return {nm: [("for", src, b, ps)] for nm, ps in body.items() if ps}
+
+    def branch(self, s, env, d):
+        # (a) `if c1: v = (l, l') elif c2: v = (m, m')` on a label-pair variable: conditional rebinding
+        chain, cur = [], s
+        while isinstance(cur, ast.If) and len(cur.body) == 1 and isinstance(cur.body[0], ast.Assign) and len(cur.body[0].targets) == 1 \
+                and isinstance(cur.body[0].targets[0], ast.Name) and env.get(cur.body[0].targets[0].id, Val("")).k == "lpair":
+            chain.append((cur.test, cur.body[0].targets[0].id, cur.body[0].value))
+            if len(cur.orelse) == 1 and isinstance(cur.orelse[0], ast.If):
+                cur = cur.orelse[0]
+            else:
+                cur = cur.orelse
+                break
+        if chain and cur == [] and len({v for _, v, _ in chain}) == 1:
+            var = chain[0][1]
+            new = list(env[var].tm)
+            for t, _, val in reversed(chain):
+                c, p = self.test(t, env), self.lpair(val, env)
+                new = [f"(if {c} then {p[k]} else {new[k]})" for k in (0, 1)]
+            env[var] = Val("lpair", tuple(new))
+            return {}
+        # (b) branches that add entries
+        c = self.test(s.test, env)
+        if isinstance(c, bool):      # decided by a constant flag (inlined `spawn`): only the live branch exists
+            return self.block(s.body if c else s.orelse, env, d)
+        self.nest += 1
+        thn, els = self.block(s.body, dict(env), d), self.block(s.orelse, dict(env), d)
+        self.nest -= 1
+        return {nm: [("if", c, thn.get(nm, []), els.get(nm, []))] for nm in list(thn) + [k for k in els if k not in thn]}
+
+    # ------------------------------------------------------------------ the definition
+    def translate(self):
+        a = self.fn.args
+        if a.posonlyargs or a.vararg or a.kwonlyargs:
+            raise Untranslatable("signature")
+        params = [x.arg for x in a.args] + ([a.kwarg.arg] if a.kwarg else [])
+        if params != list(self.kinds):
+            raise Untranslatable(f"parameters {params} (expected {list(self.kinds)})")
+        for x, dflt in zip(a.args[len(a.args) - len(a.defaults):], a.defaults):
+            if not (isinstance(dflt, ast.Constant) and dflt.value is None and self.kinds[x.arg] in ("skip", "oweight", "sym")):
+                raise Untranslatable(f"default of {x.arg}")
+        env, binders = {}, []
+        for p, k in self.kinds.items():
+            if isinstance(k, tuple):
+                env[p] = Val("mach", p, k[1])
+                binders.append(f"({p} : {k[1][0]} {k[1][1]} σ K)")
+            else:
+                env[p] = Val(k, p)
+                if k != "skip":
+                    binders.append(f"({p} : {P_TY[k]})")
+        stmts = [s for s in self.fn.body]
+        sigma = "(ESym σ)" if self.esym else "σ"
+        rty = "CFG σ K" if self.ret[0] == "CFG" else f"{self.ret[0]} {'(' + self.ret[1] + ')' if ' ' in self.ret[1] else self.ret[1]} {sigma} K"
+        last = stmts[-1] if stmts else None
+        if isinstance(last, ast.Return) and isinstance(last.value, ast.Call) and all(
+                isinstance(s, ast.Expr) and isinstance(s.value, ast.Constant) for s in stmts[:-1]):
+            c = self.new_machine(last.value, env)
+            if c is not None:
+                v = Val("mach", "{ start := [], stop := [], arcs := [] }", (c, self.ret[1]))
+            else:
+                v = self.call(last.value, env)
+            if v.ty != tuple(self.ret):
+                raise Untranslatable(f"result {v.ty} (expected {self.ret})")
+            rhs = " :=\n  " + v.tm
+        else:
+            ch = self.body(stmts, env, 0)
+            if self.kind_of_obj != self.ret[0]:
+                raise Untranslatable(f"result class {self.kind_of_obj}")
+            if self.ret[0] == "CFG":
+                rhs = f" where\n  S := {self.S}\n  V := {self.V}\n  rules := {_render(ch.get('rules', []))}"
+                extra = set(ch) - {"rules"}
+            else:
+                rhs = " where" + "".join(f"\n  {nm} := {_render(ch.get(nm, []))}" for nm in ("start", "stop", "arcs"))
+                extra = set(ch) - {"start", "stop", "arcs"}
+            if extra:
+                raise Untranslatable(f"entries {extra} in a {self.ret[0]}")
+        doc = f"/-- `{self.file}`: `{self.py}({', '.join(params)})`" + "".join(f"; requires `{p}`" for p in self.pre) + " -/\n"
+        return doc + f"def {lean_name(self.py)} {' '.join(self.inst + binders + self.extra)} : {rty}{rhs}\n", params
+
+
+def translate_builders(read):
+    """`read(file)` -> source text.  Returns (Lean text, {python name: reason} of the functions left out)."""
+    trees, failed, done = {}, {}, {}
+    for f in sorted({b[0] for b in BUILDERS}):
+        trees[f] = ast.parse(read(f))
+    out = ["/- GENERATED by harness/translate.py from genlm/grammar/{fst,cfg,cfglm,wfsa/base}.py — do not edit -/",
+           "import GenlmModel.Model.FstOps", "import GenlmModel.Model.Norm", "namespace Genlm.Gen.Build",
+           "set_option linter.unusedVariables false", "",
+           "variable {ι κ σ K : Type} [DecidableEq ι] [DecidableEq κ] [DecidableEq σ] [Add K] [Mul K] [Zero K] [One K]", ""]
+    for spec in BUILDERS:
+        try:
+            txt, params = Builder(spec, trees, done).translate()
+            done[spec[1]] = (params, spec)
+            out += [txt]
+        except Exception as e:   # Untranslatable, or an AST shape the code above did not expect: fail closed
+            failed[spec[1]] = str(e) if isinstance(e, Untranslatable) else f"internal: {e!r}"
+            out += [f"-- `{spec[0]}`: `{spec[1]}` is outside the translated fragment: {str(e)[:200]}".replace("\n", " "), ""]
+    out.append("end Genlm.Gen.Build")
+    return "\n".join(out) + "\n", failed
+
+
 def _write_if_changed(path, txt):
     os.makedirs(os.path.dirname(path), exist_ok=True)
     if not os.path.exists(path) or open(path, encoding="utf-8").read() != txt:
         open(path, "w", encoding="utf-8").write(txt)
 
 
-def run():
-    gen = os.path.join(common.LEAN, "GenlmModel", "Generated")
+def run(prop=None):
+    gen = os.environ.get("VERIF_GEN_OUT") or os.path.join(common.LEAN, "GenlmModel", "Generated")   # VERIF_GEN_OUT: dry run (development)
     log, ok = [], True
     try:
         src = open(os.path.join(common.REPO, "genlm", "grammar", "semiring.py"), encoding="utf-8").read()
@@ -377,6 +1005,19 @@ def run():
     except Untranslatable as e:
         ok = False
         log.append(f"earley: untranslatable: {e}")
+    try:
+        base = os.path.join(common.REPO, "genlm", "grammar")
+        txt, failed = translate_builders(lambda f: open(os.path.join(base, f), encoding="utf-8").read())
+        _write_if_changed(os.path.join(gen, "Builders.lean"), txt)
+        # a builder that left the fragment is a broken tie of the properties whose models it regenerates (only of those)
+        mine = {b[1]: why for b in BUILDERS for why in [failed.get(b[1])] if why and (prop is None or prop in b[2])}
+        log.append(f"builders: {len(BUILDERS) - len(failed)}/{len(BUILDERS)} translated")
+        for nm, why in mine.items():
+            ok = False
+            log.append(f"{nm}: untranslatable: {why}")
+    except (Untranslatable, SyntaxError, OSError) as e:
+        ok = False
+        log.append(f"builders: untranslatable: {e}")
     return {"ok": ok, "log": "; ".join(log)}
 
 
